@@ -1,5 +1,5 @@
 (* C17 — refutation witnesses, non-vacuity examples and the soundness of the per-run check. *)
-From C17 Require Import Model Spec Steps ChanProofs MutexProofs CounterProofs FlatProofs ObsProofs Corr.
+From C17 Require Import Model Spec Steps ChanProofs MutexProofs CounterProofs FlatProofs ObsProofs Explore Corr.
 Local Open Scope Z_scope.
 
 (* ---- the per-run check: code 0 really exhibits a schedule of the model ---- *)
@@ -10,8 +10,8 @@ Proof.
   destruct (run_sched (init p) sch) as [s|] eqn:R.
   - destruct (matches s o) eqn:M.
     + destruct (obs_ok p o) eqn:O; try discriminate. exists s. repeat split; auto. exists sch; auto.
-    + destruct (obs_ok p o); discriminate.
-  - destruct (obs_ok p o); discriminate.
+    + destruct (obs_ok p o); try discriminate. destruct (small p && exhaustive_none explore_fuel p o); discriminate.
+  - destruct (obs_ok p o); try discriminate. destruct (small p && exhaustive_none explore_fuel p o); discriminate.
 Qed.
 
 (* code 2 is never produced for something the model can show *)
@@ -21,8 +21,12 @@ Proof.
   unfold check_case; intros p o osch H s R. destruct (matches s o) eqn:M; auto.
   rewrite (obs_ok_sound _ _ _ R M) in H.
   destruct osch as [sch|]; try discriminate.
-  destruct (match run_sched (init p) sch with Some s0 => matches s0 o | None => false end); discriminate.
+  destruct (match run_sched (init p) sch with Some s0 => matches s0 o | None => false end); try discriminate.
+  destruct (small p && exhaustive_none explore_fuel p o) eqn:X; try discriminate.
+  apply andb_true_iff in X. destruct X as [_ X]. rewrite (exhaustive_none_sound _ _ _ X s R) in M. discriminate.
 Qed.
+
+
 
 (* ---- unguarded read-modify-write loses an update (also on a synchronized instance: its lock covers each
         single read and each single write, not the pair) ---- *)
@@ -37,6 +41,14 @@ Proof.
   destruct (run_sched (init w_unguarded) w_unguarded_sched) as [s|] eqn:E; [| vm_compute in E; discriminate].
   exists s. split; [exists w_unguarded_sched; auto |]. vm_compute in E. inversion E; subst. vm_compute. repeat split; auto.
 Qed.
+
+(* the explorer at work: two unguarded increments can end with 1 or 2, never with 3 (nor with 0) *)
+Definition obs_unguarded (z : Z) : obs :=
+  mkO false [true; true] [[EvLoad 0 (if Z.eqb z 2 then 0 else 0)]; [EvLoad 0 (if Z.eqb z 2 then 1 else 0)]] [z] [].
+Example explorer_example :
+  exhaustive_none 500 w_unguarded (obs_unguarded 3) = true /\ exhaustive_none 500 w_unguarded (obs_unguarded 0) = true /\
+  exhaustive_none 500 w_unguarded (obs_unguarded 1) = false /\ exhaustive_none 500 w_unguarded (obs_unguarded 2) = false.
+Proof. vm_compute. auto. Qed.
 
 (* the schedule is forced by two unbuffered channels: EVERY run of this program loses the update, which is
    how the harness reproduces the finding on the implementation *)
